@@ -12,7 +12,15 @@ src/runtime.rs) reports per program how many frame resets, pool returns and prom
 performed — a program counts as non-trivial only when it did >= 1 frame reset and >= 1 pool return;
 (c) the extracted storage model `Mem.run` (theories/Mem.v) is replayed on op sequences (`nsmodel mem`)
 and must report neither a fault nor a root that erases to a different value than the reclamation-free
-machine, while the shipped-variant configurations must fault on the recorded witnesses."""
+machine, while the shipped-variant configurations must fault on the recorded witnesses; (d) round 4: the
+extracted INSTRUMENTED EVALUATOR `MemEval.eval_ops` (theories/MemEval.v; proved: the ops it issues for any
+program are accepted by the machine and the machine with reclamation prints run_impl's values) is run on
+every generated program, corpus program and shape (`nsmodel memeval`): the values read back from the
+machine's heap, the reclamation-free machine's values and the evaluator's own output must equal the
+implementation's `nf` / `pf` output and ending, and the NUMBER of frame resets / pool returns / copying
+promotions the issued ops imply must equal the numbers the real runtime counted (exactly on runs that
+end ok; on runs ending in a runtime error the real run_inner pops one more scope, so its pool returns may
+exceed the model's)."""
 import os
 import re
 
@@ -25,8 +33,10 @@ from langgen import NUM, STR, BOOL, ARR, Var, Fn
 TRUSTED_EXTRA = [
     "C02: theories/Mem.v is a hand transcription of Value::clone_into/promote/return_to_pool, ArenaCow::promote, "
     "overwrite_slot, define/assign/assign_index/push/pop, pop_scope, parameter binding, relocate_return_value and the "
-    "loop/call frame resets at object granularity (one address per allocation); the op-sequence discipline is my reading "
-    "of eval_expr/exec_stmt/eval_function_call",
+    "loop/call frame resets at object granularity (one address per allocation)",
+    "C02: theories/MemEval.v — WHICH storage operation eval_expr/exec_stmt/eval_function_call performs at which point — is a "
+    "reading of src/runtime.rs written as a Coq evaluator over the Lang AST (the table in its header); it is tied to the code by "
+    "outputs, endings and the three reclamation counters per program, not proved against the Rust text",
     "C02: the guarded counters in src/runtime.rs (frame resets / pool returns / promotions) are evidence only",
 ]
 ASSUMPTIONS = [
@@ -1075,6 +1085,103 @@ def run_lang_model(env, name, impl_recs, order, stats, chunk=100):
     return res
 
 
+def run_memeval(env, name, impl_recs, order, fuel=60000, jobs=4):
+    """`nsmodel memeval` on the ast/plan lines of the implementation records, in `jobs` parallel processes.
+    -> {id: {"n"|"p": {"ops": int, "ctr": (resets, returns, promotions), "mem": (verdict, values),
+                        "twin": (verdict, values), "out": (ending, values)}}}; cases whose process died or
+    timed out are missing (the caller counts them as inconclusive)."""
+    import subprocess
+    ids = [c for c in order if impl_recs.get(c) and impl_recs[c].get("ast") and impl_recs[c].get("plan")]
+    if not ids:
+        return {}
+    jobs = max(1, min(jobs, (len(ids) + 49) // 50))
+    procs = []
+    for j in range(jobs):
+        part = ids[j::jobs]
+        inp = os.path.join(env.work, "%s.me%d.in" % (name, j))
+        outp = os.path.join(env.work, "%s.me%d.out" % (name, j))
+        with open(inp, "w") as f:
+            for cid in part:
+                r = impl_recs[cid]
+                f.write("case %s\n%s\n%s\nend %s\n" % (cid, r["ast"], r["plan"], cid))
+        if os.path.exists(outp):
+            os.remove(outp)
+        cmd = "ulimit -s unlimited 2>/dev/null || ulimit -s 1000000 2>/dev/null; exec %s memeval %s %d %s %s" % (
+            common.NSMODEL, langrun.eps_hex(), fuel, inp, outp)
+        procs.append((subprocess.Popen(["bash", "-c", cmd], stdout=subprocess.DEVNULL, stderr=subprocess.DEVNULL), outp))
+    res = {}
+    import time
+    deadline = time.time() + (150 if env.tier == "quick" else 3600)
+    for pr, outp in procs:
+        try:
+            pr.wait(timeout=max(1, deadline - time.time()))
+        except subprocess.TimeoutExpired:
+            pr.kill()
+        if not os.path.exists(outp):
+            continue
+        cur, tag, done = None, None, None
+        for l in open(outp, encoding="utf-8", errors="replace").read().splitlines():
+            w = l.split()
+            if l.startswith("case "):
+                cur = {}
+                done = w[1]
+                tag = None
+            elif l.startswith("me ") and cur is not None:
+                tag = w[1]
+                cur[tag] = {"ops": int(w[3]), "ctr": (int(w[5]), int(w[6]), int(w[7]))}
+            elif cur is not None and tag and w and w[0] in ("mem", "twin", "out"):
+                v, _, vals = l[len(w[0]) + 1:].partition(" |")
+                cur[tag][w[0]] = (v.strip(), vals.strip())
+            elif l.startswith("end ") and cur is not None:
+                if all(k in t for t in cur.values() for k in ("mem", "twin", "out")) and "n" in cur:
+                    res[w[1]] = cur
+                cur = None
+    return res
+
+
+def memeval_compare(rec, me, ctr, stats):
+    """One program: the instrumented evaluator's machine run vs the implementation (nf with tag n, pf with tag p).
+    -> list of (stream, detail) disagreements."""
+    bad = []
+    for tag, cfg in (("n", "nf"), ("p", "pf")):
+        m = me.get(tag) or me.get("n")
+        run = rec["runs"].get(cfg)
+        if not m or not run:
+            continue
+        e_impl = langrun.ending_class(run[0])
+        e_me = m["out"][0]
+        e_me = "panic" if e_me.startswith("panic") else e_me
+        if e_me in ("fuel", "unsupported") or e_impl in ("timeout", "crash", "err:Stack_overflow"):
+            stats["not_compared"] = stats.get("not_compared", 0) + 1
+            continue
+        stats["runs"] = stats.get("runs", 0) + 1
+        stats["ops"] = stats.get("ops", 0) + m["ops"]
+        same = (m["mem"][0] == "ok" and m["twin"][0] == "ok"
+                and m["mem"][1] == m["twin"][1] == m["out"][1] == run[1] and e_me == e_impl)
+        if not same:
+            bad.append(("memeval-vs-framed", {"cfg": cfg, "impl": [run[0][:80], run[1][:300]],
+                                             "mem": m["mem"], "twin": m["twin"], "out": m["out"]}))
+            continue
+        stats["agree"] = stats.get("agree", 0) + 1
+        c = (ctr or {}).get(cfg)
+        if not c:
+            continue
+        stats["counter_runs"] = stats.get("counter_runs", 0) + 1
+        exp = m["ctr"]
+        if e_impl == "ok":
+            good = (c[0], c[1], c[2]) == exp
+        else:
+            good = c[0] == exp[0] and c[2] == exp[2] and c[1] >= exp[1]
+        if good:
+            stats["counter_agree"] = stats.get("counter_agree", 0) + 1
+            for k, v in zip(("resets", "returns", "promotions"), exp):
+                stats[k] = stats.get(k, 0) + v
+        else:
+            bad.append(("memeval-counters", {"cfg": cfg, "ending": e_impl, "impl_resets_returns_promotions": list(c[:3]),
+                                            "issued_ops_imply": list(exp)}))
+    return bad
+
+
 def run_counters(env, name, cases, cfgs=("nf",)):
     """-> {id: {cfg: (resets, returns, promotions, ending, values)}} (programs must not crash natively)"""
     inp = os.path.join(env.work, name + ".ctr.in")
@@ -1190,6 +1297,7 @@ def correspond(env, searching=False, model=True):
     evaluations = 0
     nontrivial = set()
     counted = {"resets": 0, "returns": 0, "promotions": 0}
+    memeval_stats = {}
     shrinks = [0]
 
     def fail(key, src, observed, profile):
@@ -1261,7 +1369,17 @@ def correspond(env, searching=False, model=True):
                     if st == "disagree" and len(disagreements) < 5:
                         disagreements.append({"stream": "lang-model-vs-framed", "case": src, "detail": detail})
             # ---- model tie (b): counters — did the run exercise reclamation at all?
-            ctr, rc = run_counters(env, "c%d" % s0, ok_cases, ("nf",))
+            ctr, rc = run_counters(env, "c%d" % s0, ok_cases, ("nf", "pf") if model else ("nf",))
+            # ---- model tie (d): the instrumented evaluator — machine output and implied counters
+            if model and ok_cases:
+                me = run_memeval(env, "e%d" % s0, recs, [c for c, _ in ok_cases])
+                for cid, src in ok_cases:
+                    if cid not in me:
+                        memeval_stats["missing"] = memeval_stats.get("missing", 0) + 1
+                        continue
+                    for stream, detail in memeval_compare(recs[cid], me[cid], ctr.get(cid), memeval_stats):
+                        if sum(1 for d in disagreements if d["stream"] == stream) < 3:
+                            disagreements.append({"stream": stream, "case": src, "detail": detail})
             for cid, src in ok_cases:
                 c = ctr.get(cid, {}).get("nf")
                 if not c:
@@ -1290,6 +1408,17 @@ def correspond(env, searching=False, model=True):
             shapes.append(("s%d" % i, src, ops))
         recs = langrun.run_impl(env, "shapes", [(c, s) for c, s, _ in shapes], ["nn", "nf"], timeout=600)
         mres = run_mem_model(env, "shapes", [(c, o) for c, _, o in shapes])
+        sh_ok = [(c, s_) for c, s_, _ in shapes if recs.get(c) and recs[c].get("accepted")
+                 and not any(langrun.ending_class(e) in ("panic", "crash") for e, _ in recs[c]["runs"].values())]
+        sh_ctr, _ = run_counters(env, "shapes", sh_ok, ("nf",))
+        sh_me = run_memeval(env, "shapes", recs, [c for c, _ in sh_ok])
+        for cid, src in sh_ok:
+            if cid not in sh_me:
+                memeval_stats["missing"] = memeval_stats.get("missing", 0) + 1
+                continue
+            for stream, detail in memeval_compare(recs[cid], sh_me[cid], sh_ctr.get(cid), memeval_stats):
+                if sum(1 for d in disagreements if d["stream"] == stream) < 3:
+                    disagreements.append({"stream": stream, "case": src, "detail": detail})
         for cid, src, ops in shapes:
             r, m = recs.get(cid), mres.get(cid)
             if not r or not r.get("accepted") or not m:
@@ -1329,6 +1458,7 @@ def correspond(env, searching=False, model=True):
 
     extra["reclamation_counters_total"] = counted
     extra["shape_stream"] = shape_stats
+    extra["memeval_stream"] = memeval_stats
     extra["profiles"] = ["debug"] + (["release"] if True in profiles else [])
     return {
         "evaluations": evaluations,
@@ -1337,7 +1467,10 @@ def correspond(env, searching=False, model=True):
                 "corpus and on generated programs biased as in DESIGN §6 C02; non-trivial = distinct accepted program whose nf run "
                 "performed >= 1 frame reset AND >= 1 pool-slot return (guarded counters); model ties: nf/pf vs extracted "
                 "Lang.run_impl, and statically-controlled shapes compiled to op sequences: implementation nf output == "
-                "Mem.run(repaired) output == Mem.arun output, witnesses must fault under the shipped-variant configurations",
+                "Mem.run(repaired) output == Mem.arun output, witnesses must fault under the shipped-variant configurations; "
+                "instrumented evaluator (MemEval.eval_ops) on every corpus/generated program and shape: values read back from the "
+                "machine with reclamation == reclamation-free machine == evaluator output == implementation nf/pf output, same "
+                "ending, and frame resets / pool returns / promotions implied by the issued ops == the runtime's counters",
         "samples": samples,
         "failures": failures,
         "disagreements": disagreements,
